@@ -14,6 +14,20 @@ ACCESSORS = {'front', 'back', 'at', 'operator[]', 'begin', 'end', 'cbegin', 'cen
 MAX_DEPTH = 8
 
 
+def comp(e):
+    """Path component of a field access: the field name, tagged with its declaring class so that a derived-class
+    field shadowing a base-class field of the same name (two different mutexes called mutex_) stays distinct."""
+    return e['name'] + '\x00' + e.get('cls', '')
+
+
+def disp(path):
+    return '.'.join(c.split('\x00')[0] for c in path)
+
+
+def names(path):
+    return tuple(c.split('\x00')[0] for c in path)
+
+
 class Access:
     __slots__ = ('path', 'kind', 'locks', 'loc', 'fn', 'chain', 'tstr')
 
@@ -24,7 +38,7 @@ class Access:
         return {m for (m, _) in self.locks}
 
     def __repr__(self):
-        return '%s %s locks=%s in %s @%s' % (self.kind, '.'.join(self.path), sorted('.'.join(m) for m in self.mutexes()), short_fn(self.fn), self.loc)
+        return '%s %s locks=%s in %s @%s' % (self.kind, disp(self.path), sorted(disp(m) for m in self.mutexes()), short_fn(self.fn), self.loc)
 
 
 class Summary:
@@ -175,7 +189,7 @@ class LockAnalysis:
             if not e.get('field'):
                 return self.ev(e['base'], ctx, 'N')
             bp = self.ev(e['base'], ctx, 'N')
-            paths = [p + (e['name'],) for p in bp]
+            paths = [p + (comp(e),) for p in bp]
             if mode != 'N':
                 for m in mode:
                     self.record(paths, m, ctx, e['loc'], e['t']['s'])
